@@ -8,7 +8,7 @@ KEYS = {
  'C04': ['tx-overflow', 'reopen-inmemory-limit', 'reopen-bigregion', 'meta-grow'],
  'C06': ['images', 'images-nontrivial', 'fill-to-error', 'flush-failed', 'queue-fault-runs', 'qf-call-failed-by-fault', 'qf-ack-failed-by-fault', 'qf-flush-after-failure', 'reopen-file', 'observer-totals-checked'],
  'C07': ['abort-compared', 'abort-file-size-checked', 'abort-file-shrank', 'twin-compared', 'twin-skipped-overflow'],
- 'C08': ['fault-runs', 'fault-in-commit', 'commit-failed-sync-only', 'begin-failed-by-fault', 'fault-crash-images', 'fault-crash-images-with-unconfirmed-commit', 'fault-crash-recovered-unconfirmed-commit', 'open-fault-runs', 'resize-open-fault-runs', 'shrink-open-fault-runs', 'shrink-open-fault-tolerated', 'shrink-release-ran', 'known:F17', 'tx-overflow'],
+ 'C08': ['fault-runs', 'fault-in-commit', 'commit-failed-sync-only', 'begin-failed-by-fault', 'fault-crash-images', 'fault-crash-images-with-unconfirmed-commit', 'fault-crash-recovered-unconfirmed-commit', 'open-fault-runs', 'resize-open-fault-runs', 'shrink-open-fault-runs', 'shrink-open-fault-tolerated', 'shrink-release-ran', 'known:F17', 'tx-overflow', 'close-under-faults'],
  'C10': ['twin-compared', 'tx-overflow', 'reopen-multipage-freelist', 'reopen-multipage-wal', 'reopen-bigregion'],
  'C12': ['fill-to-error', 'flush-after-failure', 'observer-totals-checked'],
  'C13': ['pc-run', 'acks-during-production'],
